@@ -44,6 +44,7 @@ LEVEL_TEXT = (
     "Held on what was observed; inputs outside the generator's envelope (CRAM, reads without RG, lower-case bases, MNP/indel "
     "records in the SNV file, the other programs' use of the same base class) were not exercised."
 )
+LEVEL_TEXT += " Session 3: every dataset's variants file may carry split multi-allelic records and non-SNV records (which the programs must merge / ignore); a CRAM copy of each BAM must give identical read dictionaries and identical records."
 LEVEL_NOTE = (
     "Trusts pysam to write the BAM the generator describes (the oracle reads the generator's records, not the BAM), the CIGAR walker "
     "vlib/datasets.walk_alignment and the oracle in this file. Probability entries compared to 1e-9 relative. DP is taken to be "
